@@ -785,11 +785,24 @@ def replay(script, drv):
     res = Result('aioclient')
     impl = Impl(script['ident'], script['secret'])
     lines = []
+    events = []
     try:
         for ev in script['events']:
+            if ev[0] in ('accept', 'refuse') and not impl.attempts:
+                # a pinned history answers "the next connection attempt": how long the session waits before making it is
+                # a constant of the code, not of the property (harmless/U2 changes the back-off) - the environment's
+                # answer is held back until the attempt is there (at most 130 s of virtual time: beyond that the
+                # history cannot be executed, and C13's monitors have spoken before)
+                for _ in range(130):
+                    events.append(['advance', 1000])
+                    lines.append(canon(impl.event(['advance', 1000])))
+                    if impl.attempts:
+                        break
+            events.append(ev)
             lines.append(canon(impl.event(ev)))
     finally:
         impl.close()
+    script = dict(script, events=events)
     monitors(res, (script['ident'], script['secret']), script['events'], lines, script)
     if drv is not None:
         drv.ask(reset_line(script['ident'], script['secret']))
